@@ -12,8 +12,14 @@ OUT = os.path.join(V, "coq", "Gen", "Facts.v")
 EXTRA = os.environ.get("SBDF_CFLAGS", "").split()
 
 
-def ast_of(path):
-    p = subprocess.run(["clang", "-fsyntax-only", "-w", "-I", REPO + "/include", "-I", REPO + "/src"] + EXTRA +
+# the build configurations the repository supports on this platform: the default (little-endian)
+# one and the big-endian one (src/bswap.c keys on __sparc).  Facts are the union over both, so code
+# that only one configuration compiles is seen too.
+CONFIGS = [[], ["-D__sparc"]]
+
+
+def ast_of(path, cfg=()):
+    p = subprocess.run(["clang", "-fsyntax-only", "-w", "-I", REPO + "/include", "-I", REPO + "/src"] + EXTRA + list(cfg) +
                        ["-Xclang", "-ast-dump=json", path], capture_output=True, text=True)
     if p.returncode != 0:
         sys.stderr.write(p.stderr[-2000:]); sys.exit(2)
@@ -43,9 +49,9 @@ def main():
     swap_sites = []      # (function, file, line)
     err_table = []; err_default = None
     files = sorted(glob.glob(os.path.join(REPO, "src", "*.c")))
-    for path in files:
+    for path, ci in [(p_, c_) for p_ in files for c_ in range(len(CONFIGS))]:
         base = os.path.basename(path)
-        ast = ast_of(path)
+        ast = ast_of(path, CONFIGS[ci])
         cur_file = [None]
 
         def in_main_file(n):
@@ -110,7 +116,8 @@ def main():
                                         ok = b_.get("kind") == "DeclRefExpr" and b_.get("referencedDecl", {}).get("kind") == "ParmVarDecl"
                             stream_calls.append((fname, cname, ok, base, line[0]))
                     else:
-                        info["indirect"] += 1
+                        info.setdefault("ind", {}); info["ind"][ci] = info["ind"].get(ci, 0) + 1
+                        info["indirect"] = max(info["ind"].values())
                 if k == "DeclRefExpr":
                     ref = n.get("referencedDecl", {})
                     rk, rn = ref.get("kind"), ref.get("name")
@@ -194,7 +201,7 @@ def main():
 
             walk(fn, [])
             # the error description table
-            if fname == "sbdf_err_get_str":
+            if fname == "sbdf_err_get_str" and ci == 0:
                 def find_cases(n, pending):
                     k = n.get("kind")
                     if k == "CaseStmt":
